@@ -43,7 +43,8 @@ func (p *parser) parseHost(u *Url, parser *parser, input string, isNotSpecial bo
 				return "", err
 			}
 		}
-		input = strings.Trim(input, "[]")
+		// Remove exactly the one leading '[' and the one trailing ']'.
+		input = strings.TrimSuffix(input[1:], "]")
 		return p.parseIPv6(u, newInputString(input))
 	}
 	if isNotSpecial {
